@@ -44,81 +44,88 @@ Qed.
 
 (* the codec as used by codec_body, without the monadic wrapper *)
 Definition enc (signed bigend:bool) (w:nat) (n:Z) : option (list N) :=
-  let lo := if signed then - (P w / 2) else 0 in
-  let hi := if signed then P w / 2 else P w in
-  if (lo <=? n) && (n <? hi) then let bs := le_bytes w (n mod P w) in Some (if bigend then rev bs else bs) else None.
+  if (if signed then (- P w <=? 2 * n) && (2 * n <? P w) else (0 <=? n) && (n <? P w))
+  then let bs := le_bytes w (n mod P w) in Some (if bigend then rev bs else bs) else None.
 Definition dec (signed bigend:bool) (bs:list N) : Z :=
   let l := if bigend then rev bs else bs in
   let v := le_value l in
   let w := length bs in
-  if signed && negb (Nat.eqb w 0) && (P w / 2 <=? v) then v - P w else v.
+  if signed && (P w <=? 2 * v) then v - P w else v.
 
-Theorem int_roundtrip signed bigend w n bs : (0 < w)%nat -> enc signed bigend w n = Some bs -> dec signed bigend bs = n /\ length bs = w.
+Lemma P_two w : (0 < w)%nat -> exists q, P w = 2 * q.
+Proof. destruct w as [|w]; [lia|]. intros _. exists (128 * P w). rewrite P_S. lia. Qed.
+Lemma mod_neg_range m n : 0 < m -> - m <= n < 0 -> n mod m = n + m.
+Proof. intros Hm Hn. symmetry. apply Z.mod_unique with (q := -1); lia. Qed.
+
+(* EVERY width, the empty byte string included (it holds 0 and nothing else) *)
+Theorem int_roundtrip signed bigend w n bs : enc signed bigend w n = Some bs -> dec signed bigend bs = n /\ length bs = w.
 Proof.
-  intros W. unfold enc. set (lo := if signed then _ else _). set (hi := if signed then _ else _).
-  destruct ((lo <=? n) && (n <? hi)) eqn:R; [|discriminate]. apply andb_true_iff in R. destruct R as [R1 R2]. apply Z.leb_le in R1. apply Z.ltb_lt in R2.
+  unfold enc. destruct (if signed then _ else _) eqn:R; [|discriminate].
   intros H; inversion H; subst bs; clear H.
   assert (L : length (if bigend then rev (le_bytes w (n mod P w)) else le_bytes w (n mod P w)) = w) by (destruct bigend; rewrite ?rev_length; apply le_bytes_length).
   split; auto. unfold dec. rewrite L.
   replace (if bigend then rev (if bigend then rev (le_bytes w (n mod P w)) else le_bytes w (n mod P w)) else if bigend then rev (le_bytes w (n mod P w)) else le_bytes w (n mod P w))
     with (le_bytes w (n mod P w)) by (destruct bigend; rewrite ?rev_involutive; reflexivity).
-  pose proof (P_pos w) as Pp. pose proof (P_even w W) as Pe.
+  pose proof (P_pos w) as Pp.
   rewrite le_roundtrip by (apply Z.mod_pos_bound; lia).
-  replace (Nat.eqb w 0) with false by (symmetry; apply Nat.eqb_neq; lia). cbn [negb andb].
-  destruct signed; cbn [andb]; subst lo hi.
-  - destruct (Z.leb_spec (P w / 2) (n mod P w)) as [G|G].
-    + (* negative: n mod P = n + P *)
-      destruct (Z_lt_le_dec n 0) as [Neg|Pos0].
-      * assert (n mod P w = n + P w) by (symmetry; apply Z.mod_unique with (q := -1); lia). lia.
-      * rewrite Z.mod_small in G by lia. lia.
-    + destruct (Z_lt_le_dec n 0) as [Neg|Pos0].
-      * assert (n mod P w = n + P w) by (symmetry; apply Z.mod_unique with (q := -1); lia). lia.
-      * apply Z.mod_small. lia.
-  - apply Z.mod_small. lia.
+  destruct signed; cbn [andb].
+  - apply andb_true_iff in R. destruct R as [R1 R2]. apply Z.leb_le in R1. apply Z.ltb_lt in R2.
+    destruct (Z_lt_le_dec n 0) as [Neg|Pos0].
+    + rewrite (mod_neg_range (P w) n) by lia. destruct (Z.leb_spec (P w) (2 * (n + P w))); lia.
+    + rewrite Z.mod_small by lia. destruct (Z.leb_spec (P w) (2 * n)); lia.
+  - apply andb_true_iff in R. destruct R as [R1 R2]. apply Z.leb_le in R1. apply Z.ltb_lt in R2. apply Z.mod_small. lia.
 Qed.
-(* every in-range integer is encodable, every other one is refused *)
+(* every in-range integer is encodable, every other one is refused; the signed range -256^w/2 <= n < 256^w/2 is written without division so that
+   it is right for no bytes as well (only 0) *)
 Theorem enc_defined_iff signed bigend w n :
-  (exists bs, enc signed bigend w n = Some bs) <-> (if signed then - (P w / 2) <= n < P w / 2 else 0 <= n < P w).
+  (exists bs, enc signed bigend w n = Some bs) <-> (if signed then - P w <= 2 * n < P w else 0 <= n < P w).
 Proof.
   unfold enc. destruct signed.
-  - destruct ((- (P w / 2) <=? n) && (n <? P w / 2)) eqn:R.
+  - destruct ((- P w <=? 2 * n) && (2 * n <? P w)) eqn:R.
     + apply andb_true_iff in R. destruct R as [R1 R2]. apply Z.leb_le in R1. apply Z.ltb_lt in R2. split; [lia|eauto].
     + split; [intros [bs H]; discriminate|]. intros H. apply andb_false_iff in R. destruct R as [R|R]; [apply Z.leb_gt in R|apply Z.ltb_ge in R]; lia.
   - destruct ((0 <=? n) && (n <? P w)) eqn:R.
     + apply andb_true_iff in R. destruct R as [R1 R2]. apply Z.leb_le in R1. apply Z.ltb_lt in R2. split; [lia|eauto].
     + split; [intros [bs H]; discriminate|]. intros H. apply andb_false_iff in R. destruct R as [R|R]; [apply Z.leb_gt in R|apply Z.ltb_ge in R]; lia.
 Qed.
+(* the familiar form of the signed range for one byte or more *)
+Corollary signed_range_halves w n : (0 < w)%nat -> (- P w <= 2 * n < P w <-> - (P w / 2) <= n < P w / 2).
+Proof. intros W. destruct (P_two w W) as [q E]. rewrite E. replace (2 * q / 2) with q by (rewrite Z.mul_comm, Z.div_mul; lia). lia. Qed.
+(* no bytes: 0 is the only representable integer, under either signedness *)
+Corollary width_zero_holds_zero_only signed bigend n : (exists bs, enc signed bigend 0 n = Some bs) <-> n = 0.
+Proof. rewrite enc_defined_iff. unfold P. cbn [Z.of_nat Z.pow]. destruct signed; lia. Qed.
 (* negative numbers are stored as two's complement: the same bytes as the unsigned encoding of n + 256^w *)
-Theorem twos_complement bigend w n bs : (0 < w)%nat -> n < 0 -> enc true bigend w n = Some bs -> enc false bigend w (n + P w) = Some bs.
+Theorem twos_complement bigend w n bs : n < 0 -> enc true bigend w n = Some bs -> enc false bigend w (n + P w) = Some bs.
 Proof.
-  intros W Neg. unfold enc. pose proof (P_pos w) as Pp. pose proof (P_even w W) as Pe.
-  destruct ((- (P w / 2) <=? n) && (n <? P w / 2)) eqn:R; [|discriminate]. apply andb_true_iff in R. destruct R as [R1 R2]. apply Z.leb_le in R1.
+  intros Neg. unfold enc. pose proof (P_pos w) as Pp.
+  destruct ((- P w <=? 2 * n) && (2 * n <? P w)) eqn:R; [|discriminate]. apply andb_true_iff in R. destruct R as [R1 R2]. apply Z.leb_le in R1.
   intros H. replace ((0 <=? n + P w) && (n + P w <? P w)) with true by (symmetry; apply andb_true_iff; split; [apply Z.leb_le|apply Z.ltb_lt]; lia).
   rewrite <- H. replace ((n + P w) mod P w) with (n mod P w) by (rewrite <- (Z.mul_1_l (P w)) at 2; rewrite Z.mod_add by lia; reflexivity). reflexivity.
 Qed.
 (* big endian is the byte-reversed little endian *)
 Theorem big_is_reversed_little signed w n : enc signed true w n = option_map (@rev N) (enc signed false w n).
-Proof. unfold enc. destruct ((_ <=? n) && (n <? _)); reflexivity. Qed.
-(* decoding any byte string of the width and re-encoding gives the same bytes *)
-Theorem bytes_roundtrip signed bigend bs : Forall (fun b => (b < 256)%N) bs -> (0 < length bs)%nat ->
+Proof. unfold enc. destruct (if signed then _ else _); reflexivity. Qed.
+(* decoding any byte string (the empty one included) and re-encoding at its width gives the same bytes *)
+Theorem bytes_roundtrip signed bigend bs : Forall (fun b => (b < 256)%N) bs ->
   enc signed bigend (length bs) (dec signed bigend bs) = Some bs.
 Proof.
-  intros F W. set (w := length bs). set (l := if bigend then rev bs else bs).
+  intros F. set (w := length bs). set (l := if bigend then rev bs else bs).
   assert (Fl : Forall (fun b => (b < 256)%N) l) by (subst l; destruct bigend; auto; apply Forall_rev; auto).
   assert (Ll : length l = w) by (subst l; destruct bigend; rewrite ?rev_length; reflexivity).
-  pose proof (le_value_range l Fl) as R. rewrite Ll in R. pose proof (P_pos w) as Pp. pose proof (P_even w W) as Pe.
-  unfold dec. fold w. fold l. replace (Nat.eqb w 0) with false by (symmetry; apply Nat.eqb_neq; lia). cbn [negb].
+  pose proof (le_value_range l Fl) as R. rewrite Ll in R. pose proof (P_pos w) as Pp.
+  unfold dec. fold w. fold l.
   assert (Back : (if bigend then rev (le_bytes w (le_value l)) else le_bytes w (le_value l)) = bs).
   { rewrite <- Ll, le_bytes_value by auto. subst l. destruct bigend; rewrite ?rev_involutive; reflexivity. }
   unfold enc. destruct signed; cbn [andb].
-  - destruct (Z.leb_spec (P w / 2) (le_value l)) as [G|G].
-    + replace ((- (P w / 2) <=? le_value l - P w) && (le_value l - P w <? P w / 2)) with true by (symmetry; apply andb_true_iff; split; [apply Z.leb_le|apply Z.ltb_lt]; lia).
+  - destruct (Z.leb_spec (P w) (2 * le_value l)) as [G|G].
+    + replace ((- P w <=? 2 * (le_value l - P w)) && (2 * (le_value l - P w) <? P w)) with true by (symmetry; apply andb_true_iff; split; [apply Z.leb_le|apply Z.ltb_lt]; lia).
       replace ((le_value l - P w) mod P w) with (le_value l) by (apply Z.mod_unique with (q := -1); lia). rewrite Back. reflexivity.
-    + replace ((- (P w / 2) <=? le_value l) && (le_value l <? P w / 2)) with true by (symmetry; apply andb_true_iff; split; [apply Z.leb_le|apply Z.ltb_lt]; lia).
+    + replace ((- P w <=? 2 * le_value l) && (2 * le_value l <? P w)) with true by (symmetry; apply andb_true_iff; split; [apply Z.leb_le|apply Z.ltb_lt]; lia).
       rewrite Z.mod_small by lia. rewrite Back. reflexivity.
   - replace ((0 <=? le_value l) && (le_value l <? P w)) with true by (symmetry; apply andb_true_iff; split; [apply Z.leb_le|apply Z.ltb_lt]; lia).
     rewrite Z.mod_small by lia. rewrite Back. reflexivity.
 Qed.
-Example codec_example : enc true true 2 (-2) = Some [255; 254]%N /\ dec true true [255; 254]%N = -2 /\ enc false false 2 65535 = Some [255;255]%N /\ enc false false 2 65536 = None.
+Example codec_example : enc true true 2 (-2) = Some [255; 254]%N /\ dec true true [255; 254]%N = -2 /\ enc false false 2 65535 = Some [255;255]%N /\ enc false false 2 65536 = None
+  /\ enc true false 0 (-1) = None /\ enc true false 0 0 = Some [] /\ dec true false [] = 0 /\ enc true false 1 128 = None /\ enc true false 1 (-128) = Some [128%N].
 Proof. repeat split. Qed.
 Print Assumptions int_roundtrip. Print Assumptions bytes_roundtrip. Print Assumptions twos_complement. Print Assumptions enc_defined_iff.
